@@ -4,6 +4,7 @@ import (
 	"archive/zip"
 	"bytes"
 	"encoding/xml"
+	"sort"
 	"strings"
 
 	"golang.org/x/net/html"
@@ -60,9 +61,21 @@ func (r *Reader) parseNavigation(zr *zip.Reader) (*TableOfContents, error) {
 	return r.generateTOCFromSpine(), nil
 }
 
+// sortedManifestIDs returns the manifest item IDs in sorted order, so that
+// lookups over the manifest map do not depend on map iteration order.
+func (r *Reader) sortedManifestIDs() []string {
+	ids := make([]string, 0, len(r.pkg.Manifest))
+	for id := range r.pkg.Manifest {
+		ids = append(ids, id)
+	}
+	sort.Strings(ids)
+	return ids
+}
+
 // findNavDocument finds the EPUB 3 nav document in the manifest.
 func (r *Reader) findNavDocument() *ManifestItem {
-	for _, item := range r.pkg.Manifest {
+	for _, id := range r.sortedManifestIDs() {
+		item := r.pkg.Manifest[id]
 		for _, prop := range item.Properties {
 			if prop == "nav" {
 				return &item
@@ -74,7 +87,8 @@ func (r *Reader) findNavDocument() *ManifestItem {
 
 // findNCX finds the NCX document in the manifest.
 func (r *Reader) findNCX() *ManifestItem {
-	for _, item := range r.pkg.Manifest {
+	for _, id := range r.sortedManifestIDs() {
+		item := r.pkg.Manifest[id]
 		if item.MediaType == "application/x-dtbncx+xml" {
 			return &item
 		}
